@@ -24,7 +24,8 @@ ASSUMPTIONS = ['within-period solves use ParameterErrorTolerance 1e-12 so that s
                'period-to-period dynamics are generated with lag gain <= 1.2, so one further step cannot legitimately '
                'amplify an accepted residual beyond the 2x margin']
 
-DYN = ['stable', 'stable_neg', 'drift_pos', 'drift_neg', 'oscillate', 'oscillate_zero', 'slow_unstable', 'near_zero', 'mixed_block']
+DYN = ['stable', 'stable_neg', 'drift_pos', 'drift_neg', 'oscillate', 'oscillate_zero', 'slow_unstable', 'near_zero', 'mixed_block',
+       'regime_at_zero']
 
 
 def gen_dyn_block(rng, dyn, T):
@@ -57,6 +58,17 @@ def gen_dyn_block(rng, dyn, T):
         eqs.append(['y', '0.4*y + 0.2*w'])
         lags.append(['LAG_w', 'w', 'k'])
         ics.append(['w', repr(fl(rng, -50, 50, 1))])
+    elif dyn == 'regime_at_zero':
+        # equations may use the step k / the time axis t: here a policy regime that starts exactly at period 0;
+        # the search (k = -T .. 0) sees the switch in its very last period
+        a = rng.choice([0.2, 0.5, 0.8])
+        jump = rng.choice([5.0, 20.0, -8.0])
+        who = rng.choice(['k', 't'])
+        eqs.append(['y', '0.5*c + %s + %s*(%s > -0.5)' % (gterm, repr(jump), who)])
+        eqs.append(['c', '0.3*y + 0.2*LAG_w'])
+        eqs.append(['w', '%s*LAG_w + 0.1*y' % repr(a)])
+        lags.append(['LAG_w', 'w', 'k'])
+        ics.append(['w', repr(fl(rng, 0, 100, 1))])
     elif dyn == 'oscillate_zero':
         # sign flips every period, magnitude (nearly) constant: a period-2 orbit symmetric about zero
         a = -rng.choice([1.0, 1.0, 0.99999, 0.9999, 0.999])
